@@ -22,6 +22,7 @@ from checks import relay_common as rc
 LOW = 100 * 1024                  # from the property text
 LARGE = 100 * 1024 * 1024
 MOCK_STATUS = 207                 # cannot be confused with a status the proxy makes up
+NOLISTEN = "10.9.8.7:81"          # Default authorizer, nothing listens there: the host is down
 FOLLOW_BODY = b"follow-up body \x00\x01\xff"      # body of the small request that follows a refused one on the same connection
 
 EXEMPT_TARGETS = [("PUT", "/vmAgentLog"), ("PUT", "/VMAGENTLOG"), ("PUT", "/vmagentlog"), ("PUT", "/VmAgentLog#frag"),
@@ -167,6 +168,14 @@ def gen_cases(rng, quick):
     c = mk_case(rng, "POST", "/x", L, chunks_for(rng, L, L, "even"), key=key())      # and after an ACCEPTED body
     c["follow"] = True
     cases.append(c)
+    # the host is down (nothing listens at the recorded destination): an over-limit body is still refused with a 4xx, declared or
+    # discovered while reading -- the size decision does not depend on the state of the host
+    for m, t in rng.sample(OTHER_TARGETS, 3) + [("POST", "/x")]:
+        n = rng.choice([L + 1, L + 7, 2 * L, 5 * L])
+        for ch in (None, chunks_for(rng, n, L, "straddle"), chunks_for(rng, n, L, "random")):
+            c = mk_case(rng, m, t, n, ch, key=key())
+            c["dest"] = NOLISTEN
+            cases.append(c)
     # not on the relay path: forbidden caller, traversal, the local /provision endpoint
     for n in (L - 1, L + 1):
         both_modes("POST", "/machine?comp=x", n, L, kind="forbidden")
@@ -185,6 +194,12 @@ def gen_cases(rng, quick):
             c = mk_case(rng, m, t, n, ch, key=key())
             c["slow"] = 13
             cases.append(c)
+    if not quick:
+        # THOROUGH ONLY (~16 s): a legal 48 MiB exempt upload to a host that drains about 3 MiB/s -- a deadline on the upstream send
+        # (e.g. 10 s including writing the body) would answer 502 and leave a truncated body at the host
+        c = mk_case(rng, "PUT", "/vmAgentLog", 48 << 20, None, key=key())
+        c["slow_host_ms"] = 80
+        cases.append(c)
     # the 100 MiB class
     G = LARGE
     ex = lambda: rng.choice(EXEMPT_TARGETS)
@@ -224,13 +239,14 @@ def scenario_of(i, c):
         rq = e2e.req(raw, write_sizes=[len(raw) // c["slow"] + 1], write_pause_ms=1000, timeout_ms=120000)
     else:
         rq = e2e.req(head, gen_body={"len": c["n"], "seed": c["seed"], "chunk_sizes": c["chunks"]}, timeout_ms=120000)
-    a = e2e.audit(e2e.WIRESERVER, uid=e2e.NOBODY_UID) if c["kind"] == "forbidden" else e2e.audit(e2e.WIRESERVER, uid=0)
+    a = e2e.audit(e2e.WIRESERVER, uid=e2e.NOBODY_UID) if c["kind"] == "forbidden" else e2e.audit(c.get("dest", e2e.WIRESERVER), uid=0)
     reqs = [rq]
     if c.get("follow"):
         # a second, small request on the same keep-alive connection (hyper keeps it open when the refused body was only slightly
         # over the limit): nothing of the refused body may travel in front of it
         reqs.append(e2e.req(e2e.http_request("POST", "/follow", [("x-tag", "c15-%d-follow" % i)], body=FOLLOW_BODY), timeout_ms=20000))
-    return e2e.scenario("c15-%d" % i, [e2e.conn(reqs, audit=a)], key=c["key"], upstream_capture=1024,
+    more = {"upstream_read_pause_ms": c["slow_host_ms"]} if c.get("slow_host_ms") else {}
+    return e2e.scenario("c15-%d" % i, [e2e.conn(reqs, audit=a)], key=c["key"], upstream_capture=1024, **more,
                         default_reply={"status": MOCK_STATUS}, scenario_timeout_ms=240000, drain_timeout_ms=60000)
 
 
@@ -311,6 +327,94 @@ def judge_history(sc, small, r):
 
 
 # ------------------------------------------------------------------------------------------
+# keep-alive SEQUENCES: exempt and non-exempt requests around the limits on one connection, in both orders; a host that closes its
+# side between two requests
+# ------------------------------------------------------------------------------------------
+def seq_step(rng, k, i, m, t, n, mode):
+    """mode: None = no body at all (GET), "cl" = declared, else a chunk style"""
+    limit = prop_limit(m, t)
+    seed = rng.randrange(256)
+    return {"tag": "s%d-%d" % (k, i), "method": m, "target": t, "n": n, "seed": seed, "crc": e2e.gen_body_crc32(n, seed),
+            "chunks": None if mode in (None, "cl") else chunks_for(rng, n, limit, mode), "bodyless": mode is None}
+
+
+def sequences(rng, quick):
+    L = LOW
+    ex = lambda: rng.choice(EXEMPT_TARGETS[:3] + EXEMPT_TARGETS[4:])
+    ot = lambda: rng.choice(OTHER_TARGETS[:6] + [("POST", "/x")])
+    plans = []
+    for rep in range(1 if quick else 4):
+        for mode in ("cl", "straddle"):
+            # an exempt upload first, then a non-exempt request over the LOW limit: the limit class is per REQUEST
+            plans.append([(ex(), rng.choice([0, 3000, 150000]), rng.choice(["cl", "even"])), (ot(), rng.choice([L + 1, 2 * L, 4 * L]), mode)])
+            plans.append([(ex(), 3 * L, "cl"), (ot(), 10, "cl"), (ex(), 2 * L + 5, "even"), (ot(), L + 1, mode)])
+            # the reverse order: ordinary requests first, then an exempt upload well over the LOW limit
+            plans.append([(("GET", "/metadata/instance"), 0, None), (ex(), 400 * 1024, mode if mode == "cl" else "even")])
+            plans.append([(ot(), L, "cl"), (ex(), rng.choice([L + 1, 300000]), "even"), (ot(), L, "even"), (ex(), 2 * L, "cl")])
+            # and an exempt upload over ITS limit after ordinary traffic is still refused (declared: cheap)
+        plans.append([(ot(), 100, "cl"), (ex(), LARGE + 1, "cl")])
+    out = []
+    for k, plan in enumerate(plans):
+        steps = [seq_step(rng, k, i, m, t, n, mode) for i, ((m, t), n, mode) in enumerate(plan)]
+        out.append((steps, None))
+    # the host closes its side of the forwarding connection after a response; the next request on the same client connection carries an
+    # over-limit chunked body: still a 4xx (the size decision does not depend on the state of the host), nothing relayed
+    for j in range(2 if quick else 6):
+        k = len(out)
+        n = rng.choice([L + 1, L + 3, 2 * L])
+        steps = [seq_step(rng, k, 0, "POST", "/x", 50, "cl"), seq_step(rng, k, 1, *ot(), n, rng.choice(["straddle", "random"]))]
+        out.append((steps, 0))
+    scs = []
+    for k, (steps, close_after) in enumerate(out):
+        reqs = []
+        for i, st in enumerate(steps):
+            hs = [("x-tag", st["tag"])]
+            knobs = {"ops_after": [{"op": "sleep_ms", "ms": 60}]} if close_after == i else {}
+            if st["bodyless"]:
+                reqs.append(e2e.req(e2e.http_request(st["method"], st["target"], hs), timeout_ms=60000, **knobs))
+                continue
+            hs.append(("Content-Length", str(st["n"])) if st["chunks"] is None else ("Transfer-Encoding", "chunked"))
+            reqs.append(e2e.req(e2e.http_request(st["method"], st["target"], hs), timeout_ms=120000,
+                                gen_body={"len": st["n"], "seed": st["seed"], "chunk_sizes": st["chunks"]}, **knobs))
+        replies = {} if close_after is None else {e2e.WIRESERVER: [{"match": "x-tag: %s\r\n" % steps[close_after]["tag"],
+                                                                     "status": MOCK_STATUS, "close": True}]}
+        scs.append(e2e.scenario("c15-seq-%d" % k, [e2e.conn(reqs, audit=e2e.audit(e2e.WIRESERVER, uid=0))], upstream_capture=1024,
+                                key=None if rng.random() < 0.5 else {"guid": "c15-s%d" % k, "key": "%064x" % rng.getrandbits(256)},
+                                default_reply={"status": MOCK_STATUS}, replies=replies, scenario_timeout_ms=240000, drain_timeout_ms=30000))
+    return scs, out
+
+
+def judge_sequence(steps, close_after, r):
+    out = []
+    infos = [i for cs in r["upstream"].values() for c in cs for i in c.get("request_info", [])]
+    total = sum(c["nbytes"] for cs in r["upstream"].values() for c in cs)
+    rs = r["connections"][0]["responses"] if r.get("connections") else []
+    accounted = 0
+    for i, st in enumerate(steps):
+        limit = prop_limit(st["method"], st["target"])
+        where = "request %d of a keep-alive connection (%s), %s %s with %d body bytes %s" % (
+            i + 1, " -> ".join("%s %s [%d]" % (x["method"], x["target"], x["n"]) for x in steps[:i + 1]), st["method"], st["target"],
+            st["n"], "declared by Content-Length" if st["chunks"] is None else "chunked (undeclared)")
+        status = rs[i].get("status") if i < len(rs) and rs[i].get("complete") else None
+        mine = [x for x in infos if ("x-tag: %s\r\n" % st["tag"]).encode() in x["head"]]
+        if st["n"] > limit:
+            if mine:
+                out.append("%s exceeds the %d-byte limit of its class but was relayed (%d bytes at the host)" % (where, limit, mine[0]["body_len"]))
+            elif not (status is not None and 400 <= status <= 499):
+                out.append("%s exceeds the %d-byte limit of its class but was answered %s, not a 4xx status%s" % (
+                    where, limit, status, " (the host had closed the forwarding connection after the previous response)" if close_after is not None else ""))
+        elif close_after is None or i <= close_after:
+            if status != MOCK_STATUS or len(mine) != 1 or mine[0]["body_len"] != st["n"] or mine[0]["body_crc32"] != st["crc"]:
+                out.append("%s is within the %d-byte limit of its class but was not accepted and relayed intact (client status %s, host saw %s)" % (
+                    where, limit, status, [(x["body_len"], x["body_crc32"]) for x in mine]))
+            accounted += sum(x["end"] - x["start"] for x in mine)
+    if total != accounted and not out:
+        out.append("keep-alive sequence %s: %d bytes reached the host that belong to no accepted request" % (
+            [(x["method"], x["target"], x["n"]) for x in steps], total - accounted))
+    return out
+
+
+# ------------------------------------------------------------------------------------------
 def run(ctx):
     broken = rc.gen_consts_or_search(ctx)
     proofs_ok, detail = vplib.check_proofs(ctx)
@@ -345,13 +449,28 @@ def run(ctx):
             hist_failures.append({"case": {"scenario": e2e.jsonable(sc)}, "why": why, "impl": e2e.statuses(r)})
     ctx.log("histories with client-aborted uploads: %d, %d failing" % (len(hist), len(hist_failures)))
 
+    # ---------------- keep-alive sequences ----------------
+    seq_scs, seq_plan = sequences(rng, ctx.quick)
+    seq_res = e2e.run_scenarios(ctx, seq_scs, timeout=900)
+    n_seq_fail = 0
+    for sc, (steps, close_after), r in zip(seq_scs, seq_plan, seq_res):
+        if not r.get("ok") or r.get("panics"):
+            hist_failures.append({"case": {"scenario": e2e.jsonable(sc)}, "why": "sequence did not run: %s %s" % (r.get("error"), r.get("panics")), "impl": None})
+            continue
+        for why in judge_sequence(steps, close_after, r):
+            n_seq_fail += 1
+            hist_failures.append({"case": {"scenario": e2e.jsonable(sc)}, "why": why, "impl": e2e.statuses(r)})
+    ctx.log("keep-alive sequences: %d (%d requests), %d failing" % (len(seq_scs), sum(len(st) for st, _ in seq_plan), n_seq_fail))
+
     # ---------------- model ----------------
     exprs = []
     for c in cases:
         path, q = rc.split_target(c["target"])
         sel = {"relay": 0, "forbidden": 1, "traversal": 2, "provision": 3}[c["kind"]]
         declared = c["n"] if c["chunks"] is None else c["cl_header"]
-        lens = [c["n"]] if c["chunks"] is None else c["chunks"]
+        lens = [c["n"]] if c["chunks"] is None else list(c["chunks"])
+        while lens and sum(lens) < c["n"]:          # http_request repeats the last chunk size (slow uploads are given one size)
+            lens.append(min(lens[-1], c["n"] - sum(lens)))
         exprs.append("c15_case %s %s %s %d%%N %s %s false" % (
             cb(c["method"]), cb(path), rc.coq_opt(q), sel,
             "(@None N)" if declared is None else "(Some %d%%N)" % declared,
@@ -407,6 +526,9 @@ def run(ctx):
                     for i in ([0, len(cases) // 2] + bigs[:2]) if results[i] and results[i].get("ok")],
         "input_distribution": {"requests": len(cases), "class_100MiB": len(bigs), "outcomes": outcomes,
                                "histories_with_client_aborted_uploads": len(hist),
+                               "keep_alive_sequences_mixing_exempt_and_other_requests": len(seq_scs),
+                               "requests_in_sequences": sum(len(st) for st, _ in seq_plan),
+                               "over_limit_bodies_to_a_host_that_is_down": sum(1 for c in cases if c.get("dest") == NOLISTEN),
                                "small_uploads_after_aborted_ones": sum(len(sm) for _, sm in hist),
                                "slow_uploads_13_pieces_1s_apart": sum(1 for c in cases if c.get("slow")),
                                "code_exempt_pairs": code_exempt_pairs()},
@@ -420,6 +542,8 @@ def run(ctx):
         "the local /provision endpoint never reads the body: an undeclared oversize body there is answered 200 and nothing is "
         "relayed; the 4xx half of the property is applied to the relay path only (the no-relay half to everything)",
         "thorough tier runs every length of the 100 MiB class; the quick tier four of them",
+        "the QUICK tier cannot see a deadline on the upstream send either (a legal 48 MiB upload to a host draining ~3 MiB/s, ~16 s): "
+        "thorough tier only",
         "the QUICK tier cannot see a whole-body deadline on the body read (e.g. 10 s): slow but legitimate within-limit uploads "
         "(13 pieces one second apart, ~13 s) are sent in the thorough tier only",
     ]
